@@ -50,11 +50,15 @@ def to_layout(L, seed):
                 e["data"] = os.path.relpath(files[R.randrange(len(files))]["name"], os.path.dirname(name) or ".").encode()
         if not f["attr"]:
             e["attrib"] = None
+        elif f["k"] != "dir" and e["kind"] != "symlink" and R.random() < 0.1:
+            e["attrib"] = 0                       # a defined attribute word with no bit set (other writers store it)
         tm = R.random()
         if tm < 0.6:
             e["mtime"] = 132223104000000000 + R.randrange(10 ** 15)
         elif tm < 0.8:
             e["mtime"] = None
+        elif tm < 0.85:
+            e["mtime"] = 0                        # FILETIME 0: defined
         if R.random() < 0.3:
             e["ctime"] = 116444736000000000 + R.randrange(10 ** 17)
         if R.random() < 0.3:
@@ -63,10 +67,13 @@ def to_layout(L, seed):
         datas.append(e.get("data"))
     need_pw = False
     folders = []
+    all_aes = len(L["folders"]) >= 2 and R.random() < 0.15
     for fo in L["folders"]:
-        ch = R.choice(CODERS)
+        ch = R.choice(CODERS) if not all_aes else R.choice([["lzma2", "aes"], ["copy", "aes"]])
         need_pw |= "aes" in ch
-        folders.append({"nfiles": fo["n"], "coders": [dict({"id": c}, **({"dist": R.randint(1, 8)} if c == "delta" else {})) for c in ch],
+        # 7zAES coders with a salt of their own (other writers salt; two folders of one archive then need two different keys)
+        folders.append({"nfiles": fo["n"], "coders": [dict({"id": c}, **({"dist": R.randint(1, 8)} if c == "delta" else
+                                                                        {"salt": R.randbytes(R.choice([0, 0, 4, 8, 16]))} if c == "aes" else {})) for c in ch],
                         "crc": {"sub": "substream", "folder": "folder", "none": "none"}[fo["crc"]]})
     hdr = R.choice(["raw", "lzma", "lzma", "aes"])
     lay = {"files": files, "omit_numunpack_if_all_one": bool(L["omitnum"]), "emptyfile_vector": L["efvec"],
@@ -160,7 +167,8 @@ def read_case(case):
     except Exception as e:  # noqa
         obs["ok"] = False
         obs["exc"] = type(e).__name__ + ":" + str(e)[:100]
-    return [{"e": "lay", "lay": L, "writer": {k: v for k, v in lay.items() if k not in ("files",)}}, obs]
+    safe = json.loads(json.dumps({k: v for k, v in lay.items() if k not in ("files",)}, default=lambda o: o.hex() if isinstance(o, (bytes, bytearray)) else repr(o)))
+    return [{"e": "lay", "lay": L, "writer": safe}, obs]
 
 
 def classify(tr, l):
